@@ -406,8 +406,8 @@ package ro
 //@ func FromChannel$1$1
 //@   note the reader goroutine of FromChannel
 //@   props C17 C08
-//@   track destination.* loop.* select
-//@   ensures [ends-by-completion-or-done|C17] trace(loop.L0) || trace(loop.L0, destination.CompleteWithContext(ctx))
+//@   track destination.* loop.* chselect
+//@   ensures [ends-by-completion-or-done|C17] trace(loop.L0, chselect) || trace(loop.L0, chselect, destination.CompleteWithContext(ctx))
 
 //@ loop FromChannel$1$1#0
-//@   iteration emits select, destination.NextWithContext(ctx, received)
+//@   iteration emits chselect, destination.NextWithContext(ctx, received)
